@@ -15,10 +15,10 @@ def verdict(d):
     return "; ".join(parts) or "**missed**"
 
 
-print("| id | change (file: what) | needs | first evaluation | now |")
-print("|---|---|---|---|---|")
+print("| id | change (file: what) | needs | all checks at first evaluation | all checks at the last full refresh (rounds 1-4: after pass 4; later rounds: not refreshed) | own property's check now |")
+print("|---|---|---|---|---|---|")
 for d in sorted(glob.glob(os.path.join(VERIF, "seeded", "*"))):
     m = json.load(open(os.path.join(d, "meta.json")))
     s = (m.get("summary") or "").replace("|", "/").replace("\n", " ")
     n = (m.get("needs") or "").replace("|", "/").replace("\n", " ")
-    print("| %s | %s | %s | %s | %s |" % (os.path.basename(d), s[:170] + ("…" if len(s) > 170 else ""), n[:120] + ("…" if len(n) > 120 else ""), verdict(m.get("checks_when_first_evaluated")), verdict(m.get("checks_now"))))
+    print("| %s | %s | %s | %s | %s | %s |" % (os.path.basename(d), s[:170] + ("…" if len(s) > 170 else ""), n[:120] + ("…" if len(n) > 120 else ""), verdict(m.get("checks_when_first_evaluated")), verdict(m.get("checks_now")) if m.get("checks_now") else "-", (m.get("own_check_now") or {}).get("verdict", "-")))
